@@ -318,13 +318,13 @@ open GeoVerif.Elliptic GeoVerif.Proofs.Jacobi
 
 /-- numerator table, denominator, multiplier of the accumulated sum and trip cap of `RF` in the source = those of the model -/
 theorem carlson_rf_series_gen (E2 E3 : ℝ) :
-    Proofs.CarlsonGen.evalMV Gen.Carlson.rfPoly [E2, E3] = rfTail E2 E3 ∧ Gen.Carlson.rfDen = 240240 ∧ Gen.Carlson.rfSumMul = 0 ∧
+    Proofs.CarlsonGen.evalMV Gen.Carlson.rfPoly [E2, E3] = Elliptic.rfTail E2 E3 ∧ Gen.Carlson.rfDen = 240240 ∧ Gen.Carlson.rfSumMul = 0 ∧
     Gen.Carlson.rfTrips = trips := Proofs.CarlsonGen.rf_series E2 E3
 theorem carlson_rd_series_gen (E2 E3 E4 E5 : ℝ) :
-    Proofs.CarlsonGen.evalMV Gen.Carlson.rdPoly [E2, E3, E4, E5] = rjTail E2 E3 E4 E5 ∧ Gen.Carlson.rdDen = 4084080 ∧ Gen.Carlson.rdSumMul = 3 ∧
+    Proofs.CarlsonGen.evalMV Gen.Carlson.rdPoly [E2, E3, E4, E5] = Elliptic.rjTail E2 E3 E4 E5 ∧ Gen.Carlson.rdDen = 4084080 ∧ Gen.Carlson.rdSumMul = 3 ∧
     Gen.Carlson.rdTrips = trips := Proofs.CarlsonGen.rd_series E2 E3 E4 E5
 theorem carlson_rj_series_gen (E2 E3 E4 E5 : ℝ) :
-    Proofs.CarlsonGen.evalMV Gen.Carlson.rjPoly [E2, E3, E4, E5] = rjTail E2 E3 E4 E5 ∧ Gen.Carlson.rjDen = 4084080 ∧ Gen.Carlson.rjSumMul = 6 ∧
+    Proofs.CarlsonGen.evalMV Gen.Carlson.rjPoly [E2, E3, E4, E5] = Elliptic.rjTail E2 E3 E4 E5 ∧ Gen.Carlson.rjDen = 4084080 ∧ Gen.Carlson.rjSumMul = 6 ∧
     Gen.Carlson.rjTrips = trips := Proofs.CarlsonGen.rj_series E2 E3 E4 E5
 /-- the means `A0` of the source are `(x+y+z)/3`, `(x+y+3z)/5`, `(x+y+z+2p)/5` -/
 theorem carlson_means_gen (x y z p : ℝ) :
@@ -354,14 +354,14 @@ theorem carlson_tolerances_gen :
 
 /-- the Horner form in `RF` is DLMF 19.36.1 -/
 theorem rf_tail (E2 E3 : ℝ) :
-    rfTail E2 E3 = 240240 * (1 - E2 / 10 + E3 / 14 + E2 ^ 2 / 24 - 3 * E2 * E3 / 44 - 5 * E2 ^ 3 / 208 + 3 * E3 ^ 2 / 104 + E2 ^ 2 * E3 / 16) := by
-  unfold rfTail; simp only [lit_real]; push_cast; ring
+    Elliptic.rfTail E2 E3 = 240240 * (1 - E2 / 10 + E3 / 14 + E2 ^ 2 / 24 - 3 * E2 * E3 / 44 - 5 * E2 ^ 3 / 208 + 3 * E3 ^ 2 / 104 + E2 ^ 2 * E3 / 16) := by
+  unfold Elliptic.rfTail; simp only [lit_real]; push_cast; ring
 
 /-- the Horner form in `RD` and `RJ` is DLMF 19.36.2 -/
 theorem rj_tail (E2 E3 E4 E5 : ℝ) :
-    rjTail E2 E3 E4 E5 = 4084080 * (1 - 3 * E2 / 14 + E3 / 6 + 9 * E2 ^ 2 / 88 - 3 * E4 / 22 - 9 * E2 * E3 / 52 + 3 * E5 / 26
+    Elliptic.rjTail E2 E3 E4 E5 = 4084080 * (1 - 3 * E2 / 14 + E3 / 6 + 9 * E2 ^ 2 / 88 - 3 * E4 / 22 - 9 * E2 * E3 / 52 + 3 * E5 / 26
       - E2 ^ 3 / 16 + 3 * E3 ^ 2 / 40 + 3 * E2 * E4 / 20 + 45 * E2 ^ 2 * E3 / 272 - 9 * (E3 * E4 + E2 * E5) / 68) := by
-  unfold rjTail; simp only [lit_real]; push_cast; ring
+  unfold Elliptic.rjTail; simp only [lit_real]; push_cast; ring
 
 /-! ### Carlson's duplication loops -/
 
@@ -665,13 +665,15 @@ theorem einv_reduce_range (e : Par ℝ) (x : ℝ) (hE : 0 < e.eEc) :
     -e.eEc ≤ (einvReduce e x).2 ∧ (einvReduce e x).2 < e.eEc :=
   Proofs.Jacobi.einvReduce_range e x hE
 
-/-- when the Newton loop of `Einv` ends, the last iterate `φ` satisfies `|E(φ) − x| ≤ tolJAC·Δ(φ)`, and the returned value
-    is `φ` minus a correction of at most `tolJAC`; in particular a fixed point (`correction = 0`) solves `E(φ) = x` -/
+/-- when the Newton loop of `Einv` ends, the last iterate `φ` satisfies `|E(φ) − x| ≤ tolJAC·min(1, |result|)·Δ(φ)` (the
+    stopping test is relative to the angle for small angles, /repo 84b53d7), and the returned value is `φ` minus a correction
+    of at most `tolJAC·min(1, |result|)`; in particular a fixed point (`correction = 0`) solves `E(φ) = x` -/
 theorem einv_newton_residual (e : Par ℝ) (x : ℝ) (n : ℕ) (φ0 r : ℝ) (h : einvLoop e x n φ0 = some r) :
     ∃ φ : ℝ,
       let dn := delta e (sin φ) (cos φ)
       let err := (inc e .E (sin φ) (cos φ) dn - x) / dn
-      r = φ - err ∧ |err| ≤ tolJAC ∧ (dn ≠ 0 → |inc e .E (sin φ) (cos φ) dn - x| ≤ tolJAC * |dn|) ∧
+      r = φ - err ∧ |err| ≤ tolJAC * min 1 |r| ∧ |err| ≤ tolJAC ∧
+      (dn ≠ 0 → |inc e .E (sin φ) (cos φ) dn - x| ≤ tolJAC * min 1 |r| * |dn|) ∧
       (dn ≠ 0 → r = φ → inc e .E (sin φ) (cos φ) dn = x) :=
   Proofs.Jacobi.einvLoop_residual e x n φ0 r h
 
@@ -709,9 +711,10 @@ example : (0 : ℝ) < 1 ∧ ∀ s t d : ℝ, (0 : ℝ) ≤ (fun _ _ _ => (1 / 2 
 example (e : Par ℝ) (φ0 : ℝ) :
     einvLoop e (inc e .E (Real.sin φ0) (Real.cos φ0) (delta e (Real.sin φ0) (Real.cos φ0))) 1 φ0 = some φ0 := by
   have ht : (0 : ℝ) ≤ tolJAC := by unfold tolJAC; simp only [sqrt_real]; exact Real.sqrt_nonneg _
+  have hm : (0 : ℝ) ≤ tolJAC * RealLike.min 1 |φ0| := mul_nonneg ht (le_min zero_le_one (abs_nonneg _))
   unfold einvLoop
-  simp only [sin_real, cos_real, sub_self, zero_div, abs_real, abs_zero, ltb_real, sub_zero]
-  simp [not_lt.mpr ht]
+  simp only [sin_real, cos_real, sub_self, zero_div, abs_real, abs_zero, ltb_real, sub_zero, lit_real, Nat.cast_one]
+  simp [not_lt.mpr hm]
 example : (0 : ℝ) < 1 ∧ (1 : ℝ) < 2 := by norm_num
 
 end elliptic
